@@ -62,7 +62,7 @@ class _Raised(Exception):
 
 
 _STR_METHODS = {'strip', 'lower', 'upper', 'endswith', 'startswith', 'replace', 'lstrip', 'rstrip', 'split', 'find',
-                'isnumeric', 'isdigit', 'casefold', 'title', '__contains__'}
+                'isnumeric', 'isdigit', 'casefold', 'title', '__contains__', 'rfind', 'index', 'isspace', 'count'}
 _DT_METHODS = {'isoweekday', 'weekday', 'date', 'isocalendar', 'replace'}
 
 
@@ -174,6 +174,8 @@ class MiniEval:
                 self.assign(a, b, env)
         elif isinstance(t, ast.Attribute) and isinstance(t.value, ast.Name):
             env['%s.%s' % (t.value.id, t.attr)] = v          # attribute store on a local object: kept under 'obj.attr'
+            if isinstance(env.get(t.value.id), Obj):
+                setattr(env[t.value.id], t.attr, v)
         else:
             raise Undetermined('assignment target %s' % ast.unparse(t))
 
@@ -299,6 +301,8 @@ class MiniEval:
                 return getattr(base, e.attr)
             if isinstance(base, _dt.timedelta) and e.attr in ('days', 'seconds'):
                 return getattr(base, e.attr)
+            if isinstance(base, Obj) and hasattr(base, e.attr):
+                return getattr(base, e.attr)
             raise Undetermined('attribute %s' % ast.unparse(e))
         if isinstance(e, ast.JoinedStr):
             out = []
@@ -388,6 +392,11 @@ class MiniEval:
                     target = self.owner
                 else:
                     target = self.idx.resolve_class(self.owner.mod, f.value)
+                    if target is None and f.value.id not in env:
+                        # class imported inside the function body (`from .utilities import DateUtils`): unique name in the index
+                        ks = self.idx.classes_by_name.get(f.value.id, [])
+                        if len(ks) == 1:
+                            target = ks[0]
                 if target is not None:
                     k, fn = self.idx.find_method(target, f.attr)
                     if fn is None:
@@ -398,7 +407,20 @@ class MiniEval:
                                    self.depth + 1, self.globals)
                     sub.call_hook = self.call_hook
                     return sub.call(fn, args)
+            if isinstance(f.value, ast.Name) and f.value.id == 'str' and f.attr in ('isspace', 'lower', 'strip', 'upper') and len(args) == 1 \
+                    and isinstance(args[0], str):
+                return getattr(str, f.attr)(args[0])
             base = self.expr(f.value, env)
+            if isinstance(base, _Match) and f.attr in ('group', 'start', 'end', 'groupdict'):
+                try:
+                    return getattr(base, f.attr)(*args)
+                except Exception as ex:
+                    raise Undetermined('match.%s failed: %s' % (f.attr, ex))
+            if isinstance(base, list) and f.attr in ('append', 'extend', 'pop', 'index', 'count'):
+                try:
+                    return getattr(base, f.attr)(*args)
+                except Exception as ex:
+                    raise Undetermined('list.%s failed: %s' % (f.attr, ex))
             if isinstance(base, str) and f.attr in _STR_METHODS:
                 try:
                     return getattr(base, f.attr)(*args, **kwargs)
@@ -434,7 +456,7 @@ class MiniEval:
                 raise Undetermined('pattern not translatable: %s' % ex)
             MiniEval._pycache[pat] = pp
         m = pp.re.search(text) if how == 'search' else pp.re.match(text)
-        return _Match(m) if m else None
+        return _Match(m, pp) if m else None
 
 
 class _Unknown:
@@ -443,13 +465,40 @@ class _Unknown:
 
 
 class _Match:
-    """truthy stand-in for a match object"""
+    """stand-in for a match object of a translated pattern (group names are looked up through the translation)"""
 
-    def __init__(self, m):
+    def __init__(self, m, pp=None):
         self.m = m
+        self.pp = pp
 
     def __bool__(self):
         return True
+
+    def group(self, name=None):
+        if name is None or name == 0:
+            return self.m.group()
+        if isinstance(name, str) and self.pp is not None:
+            return self.pp.group(self.m, name)
+        return self.m.group(name)
+
+    def start(self):
+        return self.m.start()
+
+    def end(self):
+        return self.m.end()
+
+    def groupdict(self):
+        return {b: self.pp.group(self.m, b) for b in (self.pp.names if self.pp else {})}
+
+    def __len__(self):
+        return len(self.m.group())
+
+
+class Obj:
+    """plain record standing in for a small result object built by a stubbed constructor"""
+
+    def __init__(self, **kw):
+        self.__dict__.update(kw)
 
 
 class DateDelta:
@@ -1349,6 +1398,124 @@ class P:
 '''
 
 
+# ---- 'in N <unit>' (C08.inprefix) ---------------------------------------------------------------------------------
+
+IN_WORDS = {'english': ['in'], 'spanish': ['en'], 'french': ['dans'], 'portuguese': ['em'], 'german': ['in'],
+            'italian': ['tra', 'fra', 'in'], 'dutch': ['over', 'in']}
+
+# day-or-longer unit words (independent lexicon; the same words C10 uses)
+DATE_UNIT_WORDS = {
+    'english': 'day days week weeks month months year years', 'spanish': 'día días semana semanas mes meses año años',
+    'french': 'jour jours semaine semaines mois an ans', 'portuguese': 'dia dias semana semanas mês meses ano anos',
+    'german': 'tag tage tagen woche wochen monat monate monaten jahr jahre jahren',
+    'italian': 'giorno giorni settimana settimane mese mesi anno anni', 'dutch': 'dag dagen week weken maand maanden jaar jaren',
+}
+
+
+def in_block_of(fn):
+    for n in ast.walk(fn):
+        if isinstance(n, ast.If) and n.body and isinstance(n.body[0], ast.Assign) and 'in_connector_regex' in ast.unparse(n.body[0]):
+            return n
+    return None
+
+
+def in_block_emits(idx, W, owner, block, ucfg, connector, unit):
+    """does the in/within block of extractor_duration_with_before_and_after emit a token for '<connector> 2 <unit>'?
+    (the duration extractor has found '2 <unit>'; no ago/later word matched before)"""
+    def res(node):
+        if isinstance(node, ast.Attribute) and isinstance(node.value, ast.Name) and node.value.id == 'config':
+            try:
+                vals = W.resolve(ucfg, node.attr)
+            except AnalysisError as e:
+                raise Undetermined(str(e))
+            if len(vals) == 1:
+                return vals[0].value
+        raise Undetermined('attribute %s' % ast.unparse(node)[:40])
+
+    ev = MiniEval(idx, owner, res)
+
+    def hook(call, args, env):
+        cn = _callee_name(call)
+        if cn == 'Token':
+            return True, tuple(args)
+        if cn == 'MatchedIndex':
+            return True, Obj(**{k.arg: ev.expr(k.value, env) for k in call.keywords if k.arg})
+        if cn == 'ConditionalMatch' and len(args) == 2:
+            return True, Obj(match=args[0], success=bool(args[1]))
+        return False, None
+    ev.call_hook = hook
+    source = '%s 2 %s' % (connector, unit)
+    start = len(connector) + 1
+    text = '2 %s' % unit
+    env = {'source': source, 'extract_result.start': start, 'extract_result.length': len(text), 'extract_result.text': text,
+           'before_string': source[:start], 'after_string': '', 'ret': [], 'index': 0, 'is_match': False, 'pos': len(source),
+           'config': '<config>'}
+    try:
+        ev.block([block], env)
+    except _Return:
+        pass
+    except Undetermined as e:
+        raise AnalysisError("in/within block cannot be interpreted for %r: %s" % (source, e))
+    return [t for t in env['ret'] if isinstance(t, tuple)], source
+
+
+# ---- this/next/last <weekday> through the configuration (C08.weekdayphrase) -----------------------------------------
+
+WEEKDAY_TEMPLATES = {
+    'english': {'next': ['next {d}'], 'last': ['last {d}'], 'this': ['this {d}']},
+    'spanish': {'next': ['próximo {d}', 'el próximo {d}', '{d} próximo'], 'last': ['{d} pasado', 'el {d} pasado', 'pasado {d}'], 'this': ['este {d}']},
+    'french': {'next': ['{d} prochain'], 'last': ['{d} dernier'], 'this': ['ce {d}']},
+    'portuguese': {'next': ['próxima {d}', 'próximo {d}'], 'last': ['{d} passada', '{d} passado', 'última {d}', 'último {d}'], 'this': ['esta {d}', 'este {d}']},
+    'german': {'next': ['nächsten {d}', 'nächster {d}'], 'last': ['letzten {d}', 'letzter {d}'], 'this': ['diesen {d}', 'dieser {d}']},
+    'italian': {'next': ['{d} prossimo', 'prossimo {d}'], 'last': ['{d} scorso', 'scorso {d}'], 'this': ['questo {d}']},
+    'dutch': {'next': ['volgende {d}'], 'last': ['vorige {d}', 'afgelopen {d}'], 'this': ['deze {d}']},
+    'chinese': {'next': ['下{d}'], 'last': ['上{d}'], 'this': ['这{d}', '本{d}']},
+}
+
+
+def weekday_phrase_eval(idx, W, parser, fn, cfg, slot, phrase, ref, enum_vals, consts):
+    """interpret the `match = ...(self.config.<slot>, ...)` statement and the branch it guards for one phrase:
+    the date stored as result.future_value, or None when the branch is not taken"""
+    brs = implicit_branches(fn)
+    if slot not in brs:
+        raise AnalysisError('%s.parse_implicit_date: no branch for config.%s' % (parser.name, slot))
+    ifnode = brs[slot][0]
+    i = fn.body.index(ifnode)
+    stmts = [fn.body[i - 1], ifnode]
+
+    def res(node):
+        txt = ast.unparse(node)
+        if txt.startswith('self.config.') and isinstance(node, ast.Attribute) and txt.count('.') == 2:
+            try:
+                vals = W.resolve(cfg, node.attr)
+            except AnalysisError as e:
+                raise Undetermined(str(e))
+            if len(vals) == 1:
+                return vals[0].value
+        if isinstance(node, ast.Attribute) and isinstance(node.value, ast.Name):
+            if node.value.id == 'DayOfWeek' and node.attr in enum_vals:
+                return enum_vals[node.attr]
+            if node.value.id == 'Constants' and node.attr in consts:
+                return consts[node.attr]
+        raise Undetermined('attribute %s' % txt[:40])
+
+    ev = MiniEval(idx, parser, res)
+
+    def hook(call, args, env):
+        if _callee_name(call) == 'ConditionalMatch' and len(args) == 2:
+            return True, Obj(match=args[0], success=bool(args[1]))
+        return False, None
+    ev.call_hook = hook
+    env = {'trimmed_source': phrase, 'source': phrase, 'reference': ref, 'result': '<result>'}
+    try:
+        ev.block(stmts, env)
+    except _Return:
+        pass
+    except Undetermined as e:
+        raise AnalysisError('%s.parse_implicit_date[%s] cannot be interpreted on %r: %s' % (parser.name, slot, phrase, e))
+    return env.get('result.future_value')
+
+
 REF_PERIOD = {'is_week_only': ('days', 7), 'is_weekend': ('days', 7), 'is_month_only': ('months', 1), 'is_year_only': ('years', 1)}
 
 
@@ -1485,6 +1652,10 @@ def run(chk):
              "shifted year and denotes the same period as the TIMEX (tabulated over 72 reference dates x swift -1/0/+1)", floor=6, control=True)
     chk.rule('C08.now', "'now' resolves to the reference itself: the value is the reference object or a datetime built from all of its "
              "fields down to the second (date granularity only where the branch also emits a date TIMEX)", floor=2, control=True)
+    chk.rule('C08.weekdayphrase', "this/next/last <weekday> phrases, taken through each culture's configuration (regexes, prefix regexes, weekday "
+             "table) and the parser branch they reach, give the weekday of the current/following/preceding ISO week (7 x 7 tabulation)",
+             floor=15, control=True)
+    chk.rule('C08.inprefix', "'<in> N <unit>' is emitted as a date by the in/within block for every unit of a day or longer", floor=6, control=True)
     chk.rule('C08.wiring', 'next/last/this (and ago/later) slots are wired to regexes of that kind in every culture', floor=50)
     chk.rule('C08.specialday', 'today/tomorrow/yesterday lexicon evaluates to 0/+1/-1 (+-2) through get_swift_day', floor=30, control=True)
     chk.rule('C08.relperiod', 'this/next/last week|month|year phrases evaluate to the right unit predicate and swift in every culture',
@@ -1872,6 +2043,109 @@ def run(chk):
             raise AnalysisError('%s: fewer than 3 reference special-day words are accepted by %s' % (cul, sd[0].label))
     ctl = ast.parse("def get_swift_day(self, source):\n    t = source.strip().lower()\n    swift = 0\n    if t == 'tomorrow':\n        swift = -1\n    return swift\n").body[0]
     chk.control('C08.specialday', MiniEval(idx).call(ctl, ['tomorrow']) != 1)
+
+    # ---- C08.weekdayphrase
+    from .c06 import WEEKDAYS, parser_of_culture
+    parsers = parser_of_culture(idx, W, dp_cfgs)
+    week = [_dt.datetime(2019, 12, 23, 10, 0) + _dt.timedelta(days=i) for i in range(7)]      # Monday .. Sunday
+    shift = {'next': 7, 'last': -7, 'this': 0}
+    slot_of = {'next': 'next_regex', 'last': 'last_regex', 'this': 'this_regex'}
+    covered = 0
+    for cul in CULTURES:
+        cfg = dp_cfgs[cul]
+        parser = parsers[cul][0]
+        k_, pfn = idx.find_method(parser, 'parse_implicit_date')
+        names = list(WEEKDAYS[cul].items())[:7]
+        for kind in ('next', 'last', 'this'):
+            wrong, n_ok, n_skip = [], 0, 0
+            for dname, iso in names:
+                phrase = None
+                for tpl in WEEKDAY_TEMPLATES[cul][kind]:
+                    ph = tpl.format(d=dname)
+                    if weekday_phrase_eval(idx, W, parser, pfn, cfg, slot_of[kind], ph, week[0], enum, consts) is not None:
+                        phrase = ph
+                        break
+                if phrase is None:
+                    n_skip += 1
+                    continue
+                for ref in week:
+                    got = weekday_phrase_eval(idx, W, parser, pfn, cfg, slot_of[kind], phrase, ref, enum, consts)
+                    monday = ref - _dt.timedelta(days=ref.isoweekday() - 1)
+                    wantd = (monday + _dt.timedelta(days=iso - 1 + shift[kind])).date()
+                    n_ok += 1
+                    if not isinstance(got, _dt.datetime) or got.date() != wantd:
+                        wrong.append('%r at %s %s -> %s (expected %s)' % (phrase, ref.strftime('%a'), ref.date(),
+                                                                         got.date() if isinstance(got, _dt.datetime) else got, wantd))
+            cons = '%s[%s <weekday>]' % (cfg.name, kind)
+            if n_ok == 0:
+                chk.exempt('C08.weekdayphrase', cfg.mod.path, cons, 'none of the reference phrasings is accepted by config.%s' % slot_of[kind],
+                           'no phrase accepted')
+                continue
+            covered += 1
+            chk.judge(not wrong, 'C08.weekdayphrase', cfg.mod.path, cons,
+                      '%d interpreted (reference weekday, named weekday) cases agree' % n_ok if not wrong else
+                      '%d of %d differ; first: %s' % (len(wrong), n_ok, wrong[0]),
+                      "%s: '%s <weekday>' does not resolve to that weekday of the %s ISO week: %s (%d of %d interpreted cases differ)"
+                      % (cul, kind, {'next': 'following', 'last': 'preceding', 'this': 'current'}[kind], '; '.join(wrong[:3]), len(wrong), n_ok),
+                      pfn.lineno)
+    if covered < 15:
+        raise AnalysisError('weekday phrases are accepted for only %d culture/kind combinations' % covered)
+    # positive control: a branch that takes the nearest past weekday
+    cw = ast.parse("def parse_implicit_date(self, source, reference):\n    match = regex.match(self.config.last_regex, trimmed_source)\n"
+                   "    if match and match.start() == 0 and len(match.group()) == len(trimmed_source):\n"
+                   "        weekday_str = match.group('weekday')\n"
+                   "        value = DateUtils.this(reference, self.config.day_of_week.get(weekday_str))\n"
+                   "        result.future_value = value\n        return result\n").body[0]
+    cgot = weekday_phrase_eval(idx, W, parsers['english'][0], cw, dp_cfgs['english'], 'last_regex', 'last monday', week[1], enum, consts)
+    chk.control('C08.weekdayphrase', isinstance(cgot, _dt.datetime) and cgot.date() != _dt.date(2019, 12, 16))
+
+    # ---- C08.inprefix
+    ext = al.methods.get('extractor_duration_with_before_and_after')
+    if ext is None:
+        raise AnalysisError('anchor vanished: AgoLaterUtil.extractor_duration_with_before_and_after')
+    blk = in_block_of(ext)
+    if blk is None:
+        raise AnalysisError('extractor_duration_with_before_and_after: the in/within block was not found')
+    ucfgs = {}
+    for q in ('base_date.DateTimeUtilityConfiguration', 'utilities.DateTimeUtilityConfiguration'):
+        ucfgs.update(W.culture_classes(DT + q))
+    n_cult = 0
+    for cul in CULTURES:
+        if cul not in ucfgs or cul not in IN_WORDS:
+            continue
+        emitted, missing = 0, []
+        for conn in IN_WORDS[cul]:
+            for unit in DATE_UNIT_WORDS[cul].split():
+                toks, src = in_block_emits(idx, W, al, blk, ucfgs[cul], conn, unit)
+                if any(t[0] == 0 and t[1] == len(src) for t in toks):
+                    emitted += 1
+                else:
+                    missing.append(src)
+        n_cult += 1
+        chk.judge(not missing, 'C08.inprefix', ucfgs[cul].mod.path, '%s[in N <unit>]' % ucfgs[cul].name,
+                  '%d (connector, unit) combinations emit a date token' % emitted if not missing else 'no token for: %s' % ', '.join(missing[:8]),
+                  "%s: the in/within block emits no date token for %s (the duration extractor found 'N <unit>', the connector stands in front): "
+                  "'in N days|weeks' is not extracted as a date" % (cul, ', '.join(repr(m) for m in missing[:6])), blk.lineno)
+    if n_cult < 6:
+        raise AnalysisError('in/within block evaluated for only %d cultures' % n_cult)
+    bde = idx.cls(DT + 'base_date.BaseDateExtractor')
+    fb = bde.methods.get('extract_relative_duration_date_with_in_prefix')
+    if fb is not None:
+        for c in ast.walk(fb):
+            if isinstance(c, ast.Call) and _callee_name(c) == 'extract_in_connector' and len(c.args) >= 3 \
+                    and isinstance(c.args[1], ast.Name) and 'after' in c.args[1].id:
+                chk.observe("BaseDateExtractor.extract_relative_duration_date_with_in_prefix hands `%s` to extract_in_connector as the text in front "
+                            "of the duration and that helper anchors range_unit_regex at the number: the fallback path is dead for '<in> N <unit>' "
+                            "today, the in/within block is the only producer" % c.args[1].id)
+                break
+    ctl_blk = ast.parse("if not is_match:\n    in_within_regex_tuples = [(config.in_connector_regex, [config.range_unit_regex])]\n"
+                        "    for regexp in in_within_regex_tuples:\n        index = MatchingUtil.get_term_index(before_string, regexp[0]).index\n"
+                        "        if index > 0:\n            is_match = True\n        if is_match:\n"
+                        "            is_unit_match = any(unit_regex.search(extract_result.text) for unit_regex in regexp[1])\n"
+                        "            if not is_unit_match:\n                ret.append(Token(extract_result.start - index, extract_result.start + extract_result.length))\n"
+                        "            break\n").body[0]
+    ctoks, csrc = in_block_emits(idx, W, al, ctl_blk, ucfgs['english'], 'in', 'weeks')
+    chk.control('C08.inprefix', not ctoks)
 
     # ---- C08.relperiod
     order = {}
